@@ -124,6 +124,11 @@ def step (s : Unit) (line : String) : Unit × String :=
   match line.splitOn " " with
   | "b" :: rest => (s, stepBasic rest)
   | "c" :: rest => (s, CtiContainer.stepLine rest)
+  | ["n", kS, meth] =>
+    -- a method without an arm in the regenerated table of the kind cannot be called
+    (s, match Kind.ofName kS with
+      | some k => if (Cti.findArm k meth).isSome then "accepted" else "rejected"
+      | none => "bad-op")
   | _ => (s, "bad-op")
 
 end C34Drv
